@@ -317,7 +317,10 @@ func (w *World) GenTx(t *rapid.T, height uint64, kinds []string) []Tx {
 			val        uint64
 			reader     string
 		}
-		choices := []pc{{"val", "unstakingBlocks", 7, "unstake"}, {"val", "maxPauseBlocks", 9, "pause"}, {"fee", "sendFee", 9000, "send"}}
+		// (maxCommitteeSize below the committee size: the committee is truncated from the next height on; the block that
+		// lowers it still loads the PREVIOUS height's committee for its validator root)
+		choices := []pc{{"val", "unstakingBlocks", 7, "unstake"}, {"val", "maxPauseBlocks", 9, "pause"}, {"fee", "sendFee", 9000, "send"},
+			{"val", "maxCommitteeSize", 2, "send"}, {"val", "maxCommitteeSize", uint64(w.NVals - 1), "pause"}, {"val", "maxCommitteeSize", 1, "send"}}
 		if kind == "param-approved" {
 			choices = append(choices, pc{"val", "unstakingBlocks", 0, "unstake"}, pc{"val", "maxPauseBlocks", 0, "pause"}, pc{"val", "delegateUnstakingBlocks", 1, "unstake"}, pc{"val", "nonSignWindow", 0, "pause"})
 		}
